@@ -277,9 +277,11 @@ def run_local(case):
                 break
             r.emit(i)
             per_emit.append(len(r.sunk))
+            if case.get("keep_going") and r.emit_state and r.emit_state.startswith('failed'):
+                r.emit_state = None          # the producer catches the exception and carries on
         return {"sunk": [val_to_json(v) for v in r.sunk], "fired": [list(f) for f in r.fired], "counts": r.counts(),
                 "stalled": stalled or r.emit_state == 'pending', "errors": r.errors, "after_emit": per_emit,
-                "emit_state": r.emit_state}
+                "emit_state": r.emit_state, "emit_states": {str(k): v for k, v in r.emit_states.items()}}
     finally:
         r.close()
 
@@ -355,11 +357,15 @@ def run_dask(case, actions=None, awaited=True):
             steps.append([act, [val_to_json(v) for v in r.sunk[seen:]], len(r.fired)])
             seen = len(r.sunk)
             if r.emit_state and r.emit_state.startswith('failed'):
+                if case.get("keep_going"):
+                    r.emit_state = None             # the producer catches the exception and carries on
+                    continue
                 break                               # the pipeline raised into the producer: stop here
         log = list(r.client.log)
         return {"sunk": [val_to_json(v) for v in r.sunk], "fired": [list(f) for f in r.fired], "counts": r.counts(),
                 "stalled": stalled, "errors": r.errors, "steps": steps, "ntasks": len(r.client.futures),
                 "unfinished": r.client.unfinished(), "emit_state": r.emit_state,
+                "emit_states": {str(k): v for k, v in r.emit_states.items()},
                 "overtaken": r.gather_done != sorted(r.gather_done), "max_pending_emits": max_pending,
                 "last_md": {str(k): v for k, v in r.last_md.items()},
                 "nsubmit": sum(1 for e in log if e[0] == 'submit')}
